@@ -56,3 +56,9 @@ UNITS += [
       cbmc=["--object-bits", "12", "--slice-formula"], solver="cadical", timeout=600, unwind=18,
       level="B", bound="one active set per input (degree 1), min operator, rule base order <= 4, integer consequents", key=["consequent of the active rule"]),
 ]
+UNITS += [
+    U("fuzzy_out_none%d" % k, "mf2.c", "h_fuzzy_out_gain", functions=["a_pid_fuzzy_out_"], replace=["a_pid_fuzzy_mf/contract_a_pid_fuzzy_mf_one"], min_obl=5,
+      cbmc=["--object-bits", "12", "--slice-formula"], solver="cadical", timeout=600, unwind=18, defines=["NONE=%d" % k],
+      level="B", bound="fuzzifier reports %s; rule base order <= 4, integer consequents" % ("no active e-set" if k == 0 else "one active e-set and no active ec-set"),
+      key=["no rule fires and the controller runs on its base gains"]) for k in (0, 1)
+]
